@@ -179,8 +179,8 @@ theorem safediv_nan_iff :
 theorem safediv_finite_never_nan :
     ∀ (v : Variant) (i : In), stab v = true → validIn i = true → i.cx.isFinite = true →
       (i.cy = .pzero ∨ i.cy = .pos ∨ i.cy = .one) →
-      ∃ r, safedivV v i = some r ∧ r.hasNan = false ∧
-        (i.cx.isZero = true → ∀ k ∈ r.cs, k.isZero = true) := by decide
+      (safedivV v i).any (fun r => !r.hasNan && (!i.cx.isZero || r.cs.all Cls.isZero)) = true := by
+  decide
 
 /-- the composition a "simplification" to plain `np.true_divide(x, y)` performs is NOT safe:
     `0 / 0 = NaN` and `x / 0 = ±∞` for every finite non-zero `x` (never `x · finfo.max`). -/
@@ -188,8 +188,9 @@ theorem true_divide_not_safe_witness :
     (divNpA ⟨[Cls.pzero], .x⟩ ⟨[Cls.pzero], .y⟩).hasNan = true ∧
     (divNpA ⟨[Cls.pos], .x⟩ ⟨[Cls.pzero], .y⟩).cs = [Cls.pinf] ∧
     (divNpA ⟨[Cls.neg], .x⟩ ⟨[Cls.pzero], .y⟩).cs = [Cls.ninf] ∧
-    (∃ r, safedivV .arr ⟨.pzero, .pzero, .eq⟩ = some r ∧ r.cs = [Cls.pzero]) ∧
-    (∃ r, safedivV .arr ⟨.pos, .pzero, .gt⟩ = some r ∧ Cls.pos ∈ r.cs ∧ r.hasNan = false) := by decide
+    safedivV .arr ⟨.pzero, .pzero, .eq⟩ = some ⟨[Cls.pzero], .none⟩ ∧
+    (safedivV .arr ⟨.pos, .pzero, .gt⟩).any (fun r => r.cs.contains Cls.pos && !r.hasNan) = true := by
+  decide
 
 /-- KF-safesub-inf witness: (array, Number) divides plainly, `0/0 = NaN`; two Python numbers raise. -/
 theorem safediv_unstabilised_witness :
